@@ -57,7 +57,7 @@ M = {
  ],
  "checks": [
    check("C06",
-         "Seeded search over schedules and fault sequences: the real ED workflow (Hamiltonian prepare/compute incl. repeated calls, GF, TwoParticleGF::compute, 1-3 consecutive container computeAll calls split/unsplit with/without clearing) runs SPMD on 1..16 simulated ranks with 1..16 simulated OpenMP threads; every rank's eigen-data, G, returned chi tables (incl. boundary-sized and duplicate-point frequency lists) and chi-from-terms are compared with the 1-rank/1-thread reference, and deadlock/hang/collective-mismatch/step-budget/cpu-spin detectors decide termination; a ThreadSanitizer probe (single inline rank, the OpenMP team on real threads) covers data races between loop iterations, which serialised logical threads cannot show. Exploration level: every run is one exactly replayable schedule; ~20 000 distinct schedules per quick run, ~5*10^5 per thorough run.",
+         "Seeded search over schedules and fault sequences: the real ED workflow (Hamiltonian prepare/compute incl. repeated calls, GF, TwoParticleGF::compute, 1-3 consecutive container computeAll calls split/unsplit with/without clearing) runs SPMD on 1..16 simulated ranks with 1..16 simulated OpenMP threads; every rank's eigen-data, G, returned chi tables (incl. boundary-sized and duplicate-point frequency lists) and chi-from-terms are compared with the 1-rank/1-thread reference, and deadlock/hang/collective-mismatch/step-budget/cpu-spin detectors decide termination; a ThreadSanitizer probe and a helgrind probe (single inline rank, the OpenMP team on real threads) cover data races between loop iterations, which serialised logical threads cannot show. Exploration level: every run is one exactly replayable schedule; ~20 000 distinct schedules per quick run, ~5*10^5 per thorough run.",
          TRUST, "deterministic simulation (seeded scheduler + simulated MPI/OpenMP) with differential oracle against 1 rank / 1 thread", "DESIGN.md §3.2"),
    check("C13",
          "Seeded request histories (fill/prepareAll/computeAll split+unsplit/on-demand lookup/prepare+compute of an element/evaluate) run SPMD on 1..4 simulated ranks under seeded schedules; after every operation each evaluable listed quadruple is compared with a directly constructed TwoParticleGF, the exchange identities are checked between entries, and a small status model states which elements must be evaluable.",
